@@ -17,6 +17,7 @@ import (
 	"sort"
 	"strings"
 	"sync"
+	"time"
 
 	"mosn.io/api"
 	v2 "mosn.io/mosn/pkg/config/v2"
@@ -53,6 +54,7 @@ const (
 	upLateOK      = "late-ok"                      // answers only after the downstream already got its (timeout) reply: a late reply
 	upReplyNoBody = "reply-ok-nobody"              // success response without a body
 	upUnkNoBody   = "reply-unknown-then-ok-nobody" // a response (with body) nobody waits for, then the real, body-less one
+	upDelayOK     = "delay-ok"                     // success response ReplyDelayMs of virtual time after the request was seen (C11)
 )
 
 type hpRequest struct {
@@ -81,16 +83,17 @@ type hpScenario struct {
 	RetryCodes     []uint32    `json:"retry_codes,omitempty"`
 	Hosts          int         `json:"hosts"`
 	// hosts whose connection fails to connect (index into the host list) / times out
-	FailHosts      []int      `json:"fail_hosts,omitempty"`
-	TimeoutHosts   []int      `json:"timeout_hosts,omitempty"`
-	MaxRequests    uint32     `json:"max_requests,omitempty"`
-	MaxRetries     uint32     `json:"max_retries,omitempty"`
-	MaxConnections uint32     `json:"max_connections,omitempty"`
-	DownDisconnect bool       `json:"down_disconnect,omitempty"` // the client closes the connection at some point after sending
-	NoRoute        bool       `json:"no_route,omitempty"`        // request does not match any route
-	NoHosts        bool       `json:"no_hosts,omitempty"`        // cluster without hosts
-	AllUnhealthy   bool       `json:"all_unhealthy,omitempty"`
-	Filters        []hpFilter `json:"filters,omitempty"`
+	FailHosts      []int        `json:"fail_hosts,omitempty"`
+	TimeoutHosts   []int        `json:"timeout_hosts,omitempty"`
+	MaxRequests    uint32       `json:"max_requests,omitempty"`
+	MaxRetries     uint32       `json:"max_retries,omitempty"`
+	MaxConnections uint32       `json:"max_connections,omitempty"`
+	DownDisconnect bool         `json:"down_disconnect,omitempty"` // the client closes the connection at some point after sending
+	NoRoute        bool         `json:"no_route,omitempty"`        // request does not match any route
+	NoHosts        bool         `json:"no_hosts,omitempty"`        // cluster without hosts
+	AllUnhealthy   bool         `json:"all_unhealthy,omitempty"`
+	Filters        []hpFilter   `json:"filters,omitempty"`
+	FiltersPer     [][]hpFilter `json:"filters_per,omitempty"` // chain of the k-th stream created (overrides Filters)
 	// extra JSON merged into the route's "route" action (request_headers_to_add, …) and a direct response
 	RouteExtra   map[string]interface{} `json:"route_extra,omitempty"`
 	DirectStatus int                    `json:"direct_status,omitempty"`
@@ -99,6 +102,7 @@ type hpScenario struct {
 	HijackCode     int    `json:"hijack_code,omitempty"` // status the scripted filters answer with (default 404)
 	EjectFirstHost bool   `json:"eject_first_host,omitempty"`
 	DirectBody     string `json:"direct_body,omitempty"`
+	ReplyDelayMs   int    `json:"reply_delay_ms,omitempty"` // virtual delay of a "delay-ok" upstream reply (C11)
 	Bound          int    `json:"bound"`
 	Choices        []int  `json:"choices,omitempty"`
 }
@@ -498,6 +502,10 @@ func hpBody(sc *hpScenario, obs *hpObs) {
 				want := i + 1
 				vrt.WaitUntil("client: response to previous request", func() bool {
 					fr, _, _ := hpParse(down.Written())
+					if sc.Settle && p.activeStreams.Len() == 0 {
+						// ended without a response (a filter terminated it): nothing to wait for
+						return true
+					}
 					return len(fr) >= want || down.IsClosed()
 				})
 				if sc.Settle {
@@ -709,6 +717,9 @@ func (h *hpRun) onUpstreamConn(c *vfake.Conn) {
 			}
 			switch act {
 			case upReply200, upLateOK:
+				c.InjectRead(hpBoltResponse(fr.ID, bolt.ResponseStatusSuccess, fr.Token, true))
+			case upDelayOK:
+				vrt.Sleep(time.Duration(h.sc.ReplyDelayMs) * time.Millisecond)
 				c.InjectRead(hpBoltResponse(fr.ID, bolt.ResponseStatusSuccess, fr.Token, true))
 			case "reply-ok+k1":
 				b := hpEncode(bolt.NewRpcResponse(fr.ID, bolt.ResponseStatusSuccess, hpHeader(map[string]string{"token": fr.Token, "k1": "old"}), buffer.NewIoBufferString("resp-of-"+fr.Token)))
